@@ -82,6 +82,10 @@ def run_cases(run: lib.Run, audit: dict, scale: int = 1):
         proj = (lambda o: ("raised",) if "raised" in o else tuple(proto.json.dumps(o["ok"][k], sort_keys=True) for k in keys))
         if proj(out) != proj(model):
             run.disagreements.append(case)
+        if extra.get("hyp_c11"):
+            run.count("theorem-hypotheses-hold")
+            if extra.get("spec_c11") is None:
+                run.disagreements.append({**case, "what": "within the hypotheses of c11_truthful but Spec.c11 is undefined on the implementation's decision"})
         if extra.get("spec_c11") is False:
             run.spec_failures.append({**case, "spec": "explanation not truthful (Rbacx.Spec.c11)"})
         if "ok" in out:
